@@ -1,4 +1,4 @@
-\* quick: extent-map query, inline refill, refill unit = 1 block, 2 readers x 1 read of 3 ranges, 1 eviction (explicit or sweep), 1 source fault
+\* thorough: extent map, inline, 9 ranges
 SPECIFICATION Spec
 CONSTANTS
   NF = 1
@@ -8,7 +8,7 @@ CONSTANTS
   Readers = {r1, r2}
   r1 = r1
   r2 = r2
-  ReadSet <- RS_q3
+  ReadSet <- RS_t
   NReads = 1
   MaxEv = 1
   Async = FALSE
